@@ -39,6 +39,8 @@ type SubEvent struct {
 	NoWait bool `json:"no_wait,omitempty"`
 	// Fragmented: the real websocket upstream sends this data message as a fragmented websocket message (two frames)
 	Fragmented bool `json:"fragmented,omitempty"`
+	// EmptyErrors: the upstream sends "errors": [] next to the data (many servers always send the key): no error at all
+	EmptyErrors bool `json:"empty_errors,omitempty"`
 }
 
 // extraKey reports a key of got that the reference answer does not have at the same place (a helper field that was not removed).
@@ -364,6 +366,10 @@ func checkC17(c *SubCase) (*ev.Failure, string) {
 			}
 			payload := map[string]interface{}{"data": ans}
 			resp := &requests.Response{Data: ans}
+			if e.EmptyErrors && !e.Partial {
+				payload["errors"] = []interface{}{}
+				resp.Errors = gqlerrors.ErrorList{}
+			}
 			if e.Partial {
 				payload["errors"] = []interface{}{map[string]interface{}{"message": fmt.Sprintf("partial failure %d", k)}}
 				resp.Errors = gqlerrors.ErrorList{gqlerrors.NewError("PARTIAL", fmt.Errorf("partial failure %d", k))}
@@ -479,6 +485,10 @@ func genSubCase(t *rapid.T, rec *ev.Recorder) (*SubCase, []string) {
 			e.KeepAlive = true
 			labels = append(labels, "upstreamKeepAlive")
 		}
+		if !e.Error && rapid.IntRange(0, 5).Draw(t, "evemptyerrors") == 0 {
+			e.EmptyErrors = true
+			labels = append(labels, "upstreamEmptyErrorsList")
+		}
 		if c.RealWS && !e.Error && rapid.IntRange(0, 4).Draw(t, "evfrag") == 0 {
 			e.Fragmented = true
 			labels = append(labels, "upstreamFragmentedMessage")
@@ -508,7 +518,7 @@ func genSubCase(t *rapid.T, rec *ev.Recorder) (*SubCase, []string) {
 
 func TestC17(t *testing.T) {
 	rec := ev.Get("C17")
-	rec.Rule = "worlds with Subscription fields whose payload crosses services x 1..3 generated subscription operations over 1..2 client connections (harness-owned net.Pipe through an http.Hijacker) x 0..8 upstream events in a drawn order, each event's root value drawn from the store; in a third of the cases every leaf value of every service changes between events (data epochs); selections reach depth 3..6; the real upstream sends keep-alives and a fifth of its data messages in two websocket frames; upstream either an in-process scripted Queryer (80%) or a real graphql-ws server on loopback behind the real MultiOpQueryer.Subscribe (20%, also upstream errors); the upstream answers every event by executing the gateway's own root sub-query on the owning service's schema. Oracle: after each emission the subscribing connection receives exactly one data message with that subscription's id whose payload equals the reference executor on the union schema (pruned), upstream errors are forwarded as errors, nothing extra arrives, and (scripted upstream, default batch size) per event and service the number of batched calls is at most the number of plan levels below the root; non-trivial = >=2 events and a payload needing >=1 child step, or >=2 concurrent subscriptions; distinct by hash(case)"
+	rec.Rule = "worlds with Subscription fields whose payload crosses services x 1..3 generated subscription operations over 1..2 client connections (harness-owned net.Pipe through an http.Hijacker) x 0..8 upstream events in a drawn order, each event's root value drawn from the store; in a third of the cases every leaf value of every service changes between events (data epochs); selections reach depth 3..6; a sixth of the events carry an empty errors list next to their data; the real upstream sends keep-alives and a fifth of its data messages in two websocket frames; upstream either an in-process scripted Queryer (80%) or a real graphql-ws server on loopback behind the real MultiOpQueryer.Subscribe (20%, also upstream errors); the upstream answers every event by executing the gateway's own root sub-query on the owning service's schema. Oracle: after each emission the subscribing connection receives exactly one data message with that subscription's id whose payload equals the reference executor on the union schema (pruned), upstream errors are forwarded as errors, nothing extra arrives, and (scripted upstream, default batch size) per event and service the number of batched calls is at most the number of plan levels below the root; non-trivial = >=2 events and a payload needing >=1 child step, or >=2 concurrent subscriptions; distinct by hash(case)"
 	defer census.dump("C17")
 	rapid.Check(t, func(t *rapid.T) {
 		c, labels := genSubCase(t, rec)
